@@ -27,6 +27,7 @@ RULE = (
     "enumerated completely (every 2D/3D element type x contour order or boundary source x rotation/mirror/out-of-plane motion; "
     "every element type x general/parallelogram geometry x motion x 12 queries of every kind), because Hypothesis does not "
     "stratify over element types. distinct = sha1 of the serialised case."
+    ' point_location_1d / location_types_1d: SEG2..SEG5 lines anywhere in space, polynomial of the abscissa evaluated at constructed abscissae (non-trivial = non-constant polynomial and an interior query). Normals: the normalize=False route is compared with the first one at every Gauss point.'
 )
 ASSUMPTIONS = [
     "exact measure/centroid/perimeter/outward normals come from the recipe (shoelace, prism formula, vlib.c09_geom), the "
